@@ -66,8 +66,10 @@ theorem escapeDispatch_argOk (c : Nat) : ∀ x ∈ escapeDispatch c, x.argOk = t
 theorem oscFinish_argOk (code : Nat) (param : List Nat) : ∀ x ∈ oscFinish code param, x.argOk = true := by
   unfold oscFinish
   intro x hx
-  simp only [List.mem_append] at hx
-  rcases hx with hx | hx <;> (split at hx <;> simp_all [Call.argOk])
+  split at hx
+  · simp only [List.mem_append] at hx
+    rcases hx with hx | hx <;> (split at hx <;> simp_all [Call.argOk])
+  · simp at hx
 
 theorem nil_ok : ∀ x ∈ ([] : List Call), x.argOk = true := by simp
 
